@@ -3,7 +3,7 @@
    The model is coq/Geom/GeomModel.v (what Geometry derives from a description), coq/Geom/CondFile.v (conductivity
    file).  Geometry enters through oracles handed in as data (solid-angle sign per interface, insideness per probe
    and interface) and through explicit hypotheses on them (monotone chain). *)
-From OM Require Import Base.Lists Base.Ops Geom.MeshTopo Geom.GeomModel Geom.GeomProofs Geom.OldOrdering Geom.CondFile Geom.CondProofs Geom.SaveGeom.
+From OM Require Import Base.Lists Base.Ops Geom.MeshTopo Geom.GeomModel Geom.GeomProofs Geom.OldOrdering Geom.Laminar Geom.CondFile Geom.CondProofs Geom.SaveGeom.
 From Coq Require Import Permutation.
 Local Open Scope Z_scope.
 
@@ -142,6 +142,42 @@ Proof.
   intros g n ins ss F P M. apply count_one_unique. eapply unique_domain_chain; eauto.
 Qed.
 Print Assumptions unique_domain_nested_chain.
+
+(* general case: the interfaces form a forest under inclusion (parent = the smallest enclosing interface), the domains
+   are those of a valid decomposition (one per interface: inside it and outside its children; the exterior: outside
+   the roots), listed in any order with their boundaries in any order.  Hypotheses on the insideness oracle: inside a
+   surface => inside its parent; two surfaces with the same parent (or two roots) have disjoint interiors. *)
+Theorem unique_domain_general : forall g n parent depth ins ss,
+  (forall i j, parent i = Some j -> (j < n)%nat /\ depth i = S (depth j)) ->
+  (forall i, parent i = None -> depth i = 0%nat) ->
+  (forall i j, (i < n)%nat -> ins i = true -> parent i = Some j -> ins j = true) ->
+  (forall i j, (i < n)%nat -> (j < n)%nat -> i <> j -> parent i = parent j -> ins i = true -> ins j = true -> False) ->
+  Forall2 (@Permutation _) ss (laminar_sigs n parent) -> Permutation (map sig_of (g_doms g)) ss ->
+  exists k, (k < length (g_doms g))%nat /\ dom_contains ins (dom g k) = true /\ domain_of_point g ins = Some k
+            /\ forall k', (k' < length (g_doms g))%nat -> dom_contains ins (dom g k') = true -> k' = k.
+Proof.
+  intros g n parent depth ins ss H1 H2 H3 H4 F P. apply count_one_unique.
+  rewrite (filter_ext _ (fun d => contains_sig ins (sig_of d))) by (intros; apply dom_contains_sig).
+  rewrite <- filter_map_len. rewrite (count_perm _ _ _ P).
+  rewrite (Forall2_count (contains_sig ins) (contains_sig ins) _ _ _ (fun a b Hab => forallb_perm _ a b Hab) F).
+  eapply laminar_unique; eauto.
+Qed.
+Print Assumptions unique_domain_general.
+
+(* the hypotheses are satisfiable: two sibling inclusions 0,1 inside the body 2, a point inside inclusion 1 *)
+Example laminar_hypotheses_satisfiable :
+  let parent := fun i => match i with 0%nat | 1%nat => Some 2%nat | _ => None end in
+  let depth := fun i => match i with 0%nat | 1%nat => 1%nat | _ => 0%nat end in
+  let ins := fun i => match i with 0%nat => false | _ => true end in
+  (forall i j, parent i = Some j -> (j < 3)%nat /\ depth i = S (depth j))
+  /\ (forall i, parent i = None -> depth i = 0%nat)
+  /\ length (filter (contains_sig ins) (laminar_sigs 3 parent)) = 1%nat.
+Proof.
+  cbv zeta. split; [|split].
+  - intros [|[|i]] j H; inversion H; subst; simpl; split; auto.
+  - intros [|[|i]] H; try discriminate; reflexivity.
+  - vm_compute. reflexivity.
+Qed.
 
 Example chain3_hypotheses_satisfiable :
   monotone 3 (fun i => Nat.leb 1 i) /\ length (filter (contains_sig (fun i => Nat.leb 1 i)) (chain_sigs 3)) = 1%nat.
